@@ -162,3 +162,11 @@ Proof.
   destruct (dec t lr_ops (firstn k e)) as [v2 r2|e2 r2] eqn:E; [|contradiction].
   exfalso. exact (truncation_rejected t e v k He Hk v2 r2 E).
 Qed.
+
+(* the buffer reader model on a whole buffer vs ListReader on the same bytes *)
+Lemma bufr_dec_refines t (buf : bytes) : nlen buf < two64 ->
+  rel_res true bufr_rel (dec t bufr_ops {| br_buf := buf; br_idx := 0 |}) (dec t lr_ops buf).
+Proof.
+  intros Hn. apply (dec_sim true t bufr_rel bufr_ops lr_ops _ buf bufr_refines).
+  unfold bufr_rel, br_size; cbn. split; [lia|]. split; [exact Hn|reflexivity].
+Qed.
